@@ -26,6 +26,14 @@ EXTENDED = [("update", "MUpdate", "gen_update"), ("update_extend", "MUpdateExten
 ENABLE_EXTENDED = True
 if ENABLE_EXTENDED:
     METHODS = METHODS + EXTENDED
+READERS = [("iteritems", "MIterItems", "gen_iteritems"), ("iterkeys", "MIterKeys", "gen_iterkeys"),
+           ("itervalues", "MIterValues", "gen_itervalues"), ("__reversed__", "MReversed", "gen_reversed"),
+           ("keys", "MKeys", "gen_keys"), ("values", "MValues", "gen_values"), ("items", "MItems", "gen_items"),
+           ("__iter__", "MIter", "gen_iter")]
+ENABLE_READERS = True
+if ENABLE_READERS:
+    METHODS = METHODS + READERS
+ACC_TOKS, ACC_PAIRS = 998, 999          # environment slots that collect what a generator yields
 KWARGS_OK = {"update", "update_extend"}      # methods whose **F is translated (second argument of the call)
 CTOR = {py: c for py, c, _ in METHODS}
 FIELDS = {"PREV": "FPrev", "NEXT": "FNext", "KEY": "FKey", "VALUE": "FVal"}
@@ -53,6 +61,9 @@ class Method:
         if a.kwarg:
             self.vars[a.kwarg.arg] = len(self.vars)     # **F is passed as one more (mapping) argument
         self.set_add_alias = {}   # local name -> set variable (x = seen.add)
+        self.dict_sd_alias = {}   # local name -> dict variable (x = lengths.setdefault)
+        self.store_getitem_alias = set()   # local names bound to super().__getitem__
+        self.yield_kinds = set()
         self.meth_alias = {}      # local name -> python method name (x = self._insert)
         self.super_alias = set()  # local names bound to super()
         self.map_alias = set()    # local names bound to self._map (only in _clear_ll)
@@ -83,10 +94,12 @@ class Method:
     def call_method(self, pyname, args, keywords, node):
         if pyname not in CTOR:
             self.bad("call of a method outside the translated set", node)
-        if keywords:
-            self.bad("keyword arguments in a self-call", node)
         params, defaults = self.sigs[pyname]
         given = [self.expr(a) for a in args]
+        for kw in keywords:                       # keywords must continue the positional arguments in order
+            if kw.arg is None or len(given) >= len(params) or params[len(given)] != kw.arg:
+                self.bad("keyword argument out of order in a self-call", node)
+            given.append(self.expr(kw.value))
         if len(given) > len(params):
             self.bad("too many arguments", node)
         missing = len(params) - len(given)
@@ -108,6 +121,8 @@ class Method:
     def const_default(self, d):
         if isinstance(d, ast.Constant) and d.value is None:
             return "ENone"
+        if isinstance(d, ast.Constant) and d.value is False:
+            return "EFalse"
         if isinstance(d, ast.Name) and d.id == "_MISSING":
             return "EMissing"
         self.bad("default value", d)
@@ -141,6 +156,20 @@ class Method:
             self.bad("generator expression", e)
         if isinstance(e, ast.Constant) and e.value is None:
             return "ENone"
+        if isinstance(e, ast.Constant) and e.value is True:
+            return "ETrue"
+        if isinstance(e, ast.Constant) and e.value is False:
+            return "EFalse"
+        if isinstance(e, ast.Dict) and not e.keys:
+            return "EDictNew"
+        if isinstance(e, ast.Compare) and len(e.ops) == 1 and isinstance(e.ops[0], ast.IsNot) \
+                and isinstance(e.left, ast.Name) and isinstance(e.comparators[0], ast.Name) \
+                and e.comparators[0].id != "_MISSING":
+            return "(ENotIs %s %s)" % (self.expr(e.left), self.expr(e.comparators[0]))
+        if isinstance(e, ast.Compare) and len(e.ops) == 1 and isinstance(e.ops[0], ast.Eq) \
+                and isinstance(e.left, ast.Name) and isinstance(e.comparators[0], ast.Call) \
+                and ast.unparse(e.comparators[0].func) == "len" and len(e.comparators[0].args) == 1:
+            return "(EEqNat %s (ELen %s))" % (self.expr(e.left), self.expr(e.comparators[0].args[0]))
         if _self_attr(e, "root"):
             return "ERoot"
         if isinstance(e, ast.Subscript):
@@ -198,16 +227,18 @@ class Method:
             return "(EArgItems %s)" % self.expr(ast.Name(id="E"))
         if src == "set()":
             return "ESetNew"
+        if isinstance(f, ast.Name) and f.id in self.store_getitem_alias and len(e.args) == 1 and not e.keywords:
+            return "(EStoreGetitem %s)" % self.expr(e.args[0])
         if isinstance(f, ast.Name):
             if f.id == "list" and len(e.args) == 1 and not e.keywords:
                 return "(EListOf %s)" % self.expr(e.args[0])
             if f.id in self.meth_alias:
                 return self.call_method(self.meth_alias[f.id], e.args, e.keywords, e)
             self.bad("call", e)
+        if isinstance(f, ast.Attribute) and _is_self(f.value):
+            return self.call_method(f.attr, e.args, e.keywords, e)
         if not isinstance(f, ast.Attribute) or e.keywords:
             self.bad("call", e)
-        if _is_self(f.value):
-            return self.call_method(f.attr, e.args, e.keywords, e)
         if self.is_super(f.value):
             n, a = f.attr, e.args
             if n == "setdefault" and len(a) == 2 and self.empty_list(a[1]):
@@ -260,6 +291,13 @@ class Method:
                         if t.id in self.vars:
                             self.bad("alias re-uses a variable", s)
                         self.set_add_alias[t.id] = v.value.id
+                        return None
+                    if isinstance(v, ast.Attribute) and v.attr == "setdefault" and isinstance(v.value, ast.Name) \
+                            and v.value.id in self.vars:             # x = lengths.setdefault
+                        self.dict_sd_alias[t.id] = v.value.id
+                        return None
+                    if isinstance(v, ast.Attribute) and v.attr == "__getitem__" and self.is_super(v.value):
+                        self.store_getitem_alias.add(t.id)           # x = super().__getitem__
                         return None
                     if _self_attr(v) and v.attr in CTOR:         # x = self._insert
                         if t.id in self.vars:
@@ -325,6 +363,28 @@ class Method:
             if _is_self(t.value):
                 return "(SExpr %s)" % self.call_method("__delitem__", [t.slice], [], s)
             self.bad("del", s)
+        if isinstance(s, ast.Expr) and isinstance(s.value, ast.Yield) and s.value.value is not None:
+            v = s.value.value
+            kind = "pairs" if isinstance(v, ast.Tuple) else "toks"
+            self.yield_kinds.add(kind)
+            return "(SYield %s)" % self.expr(v)
+        if isinstance(s, ast.AugAssign) and isinstance(s.op, ast.Add) and isinstance(s.target, ast.Subscript) \
+                and isinstance(s.target.value, ast.Name) and s.target.value.id in self.vars \
+                and isinstance(s.value, ast.Constant) and s.value.value == 1 and type(s.value.value) is int:
+            return "(SDictIncr %d %s)" % (self.var(s.target.value.id), self.expr(s.target.slice))
+        if isinstance(s, ast.If) and isinstance(s.test, ast.Compare) and isinstance(s.test.left, ast.Call) \
+                and isinstance(s.test.left.func, ast.Name) and s.test.left.func.id in self.dict_sd_alias \
+                and len(s.test.left.args) == 2 and isinstance(s.test.left.args[1], ast.Constant) \
+                and type(s.test.left.args[1].value) is int and not s.test.left.keywords:
+            # if d.setdefault(k, c) == ...: the call is the first thing evaluated - hoist it into a statement
+            c = s.test.left
+            tmp = "_sd_tmp%d" % len(self.vars)
+            t = self.var(tmp, define=True)
+            pre = "(SDictSetdefault %d %d %s %d)" % (self.var(self.dict_sd_alias[c.func.id]), t,
+                                                      self.expr(c.args[0]), c.args[1].value)
+            test = ast.Compare(left=ast.Name(id=tmp), ops=s.test.ops, comparators=s.test.comparators)
+            return "(SSeq %s (SIf %s %s %s))" % (pre, self.expr(test, boolean=True), self.block(s.body),
+                                                 self.block(s.orelse))
         if isinstance(s, ast.If):
             return "(SIf %s %s %s)" % (self.expr(s.test, boolean=True), self.block(s.body), self.block(s.orelse))
         if isinstance(s, ast.While) and not s.orelse:
@@ -384,6 +444,12 @@ def generate(repo):
     for py, ctor, name in METHODS:
         m = Method(fns[py], sigs)
         body = m.block(fns[py].body)
+        if m.yield_kinds:                              # a generator: its value is the list of what it yields
+            if len(m.yield_kinds) != 1:
+                raise Unsupported("%s yields both pairs and single values" % py)
+            if any(isinstance(x, ast.Return) for x in ast.walk(fns[py])):
+                raise Unsupported("%s: return inside a generator" % py)
+            body = "(SSeq %s (SReturn %s))" % (body, "EYieldedPairs" if "pairs" in m.yield_kinds else "EYieldedToks")
         out.append("(* %s(%s) *)" % (py, ", ".join(["self"] + sigs[py][0])))
         out.append("Definition %s : stmt :=\n  %s." % (name, body))
         out.append("")
